@@ -26,7 +26,7 @@ META = {
     'evaluation_counters': ['judged_attributes', 'judged_minimal'],
     'required_counters': ['judged_attributes', 'judged_minimal', 'judged_minimal_infimum',
                           'judged_empty_extent', 'judged_nonempty_bottom', 'judged_abandoned',
-                          'regenerated_via_lattice_call', 'interleaved_enumerations', 'bigintent_cases'],
+                          'regenerated_via_lattice_call', 'interleaved_enumerations', 'bigintent_cases', 'judged_attributes_prefix_of_wide_intent'],
     'shards': {'quick': 16, 'thorough': 16},
     'exhaustive': {'quick': 'all tables <= 3x3 x all concepts', 'thorough': 'all tables <= 3x3, 3x4, 4x3, 4x4 x all concepts'},
     'assumptions': ['intents larger than the bound are skipped (counted)'],
@@ -44,6 +44,27 @@ def generators(sh, e, i):
             m = mask_of(comb)
             if sh.extension(m) == e:
                 out.append(m)
+    return out
+
+
+def generators_prefix(sh, e, i, count):
+    """The first ``count`` generating subsets of intent ``i`` in shortlex order (lazy: usable for intents
+    far too wide for the full 2^n enumeration, as long as the prefix stays among the small sizes)."""
+    if e == 0:
+        return [i]
+    pos = bits(i)
+    out = []
+    tried = 0
+    for r in range(len(pos) + 1):
+        for comb in itertools.combinations(pos, r):
+            tried += 1
+            if tried > 400000:
+                raise core.CaseTooLarge(tried)
+            m = mask_of(comb)
+            if sh.extension(m) == e:
+                out.append(m)
+                if len(out) >= count:
+                    return out
     return out
 
 
@@ -67,10 +88,28 @@ class AttributesMonitor(Monitor):
             return
         e, i = view.masks[k]
         sh = view.sh
-        if len(bits(i)) > (STATE['bound'] or self.bound):
+        wide = len(bits(i)) > (STATE['bound'] or self.bound)
+        if wide and not STATE.get('prefix_only'):
             COL.count('skipped_intent_too_large')
             return
         lat = view.lattice
+
+        def judge_prefix(items, complete, exc):
+            # intent too wide for the full enumeration: the run (abandoned by the driver after a few
+            # hundred items) must be exactly the first generating subsets in shortlex order
+            COL.count('judged_attributes')
+            COL.count('judged_attributes_prefix_of_wide_intent')
+            if exc is not None:
+                COL.violation('attributes', f'attributes:raised-{type(exc).__name__}', 'generating sets', repr(exc))
+                return
+            got = [tuple(t) for t in items]
+            want = [sh.plabels(m) for m in generators_prefix(sh, e, i, len(got) + (1 if complete else 0))]
+            if got != want[:len(got)] or (complete and len(want) > len(got)):
+                k_ = next((x for x, (a, b) in enumerate(zip(got, want)) if a != b), min(len(got), len(want)))
+                COL.violation('attributes', 'attributes:prefix-of-wide-intent-differs',
+                              want[max(0, k_ - 1):k_ + 2], got[max(0, k_ - 1):k_ + 2], {'concept': repr(c), 'position': k_})
+        if wide:
+            return attach.Replace(common.recording(result, judge_prefix, 'attributes'))
 
         def judge(items, complete, exc):
             COL.count('judged_attributes')
@@ -128,7 +167,13 @@ class MinimalMonitor(Monitor):
         e, i = view.masks[k]
         sh = view.sh
         if len(bits(i)) > (STATE['bound'] or self.bound) and e != 0 and k != 0:
-            COL.count('skipped_intent_too_large')
+            if not STATE.get('prefix_only'):
+                COL.count('skipped_intent_too_large')
+                return
+            COL.count('judged_minimal')
+            want = sh.plabels(generators_prefix(sh, e, i, 1)[0])
+            if tuple(result) != want:
+                COL.violation('minimal', 'minimal:not-the-first-generating-set', want, tuple(result), {'concept': repr(c)})
             return
         COL.count('judged_minimal')
         if k == 0:
@@ -177,6 +222,45 @@ def bigintent_cases(tier):
         yield dict(gen.case(f'BIGINTENT{m}', rows, m, 'plain'), bigintent=True)
 
 
+def wideintent_cases(tier):
+    """An intent of 26-30 properties with a size gap between its minimal generating sets: one single
+    property generates the concept, the next minimal generating set has three properties."""
+    import random as _r
+    for k, m in enumerate([26] if tier == 'quick' else [26, 28, 30]):
+        rng = _r.Random(f'wideintent{m}')
+        full = (1 << m) - 1
+        a, b, c3 = rng.sample(range(1, m), 3)
+        rows = [full, full & ~1 & ~(1 << a), full & ~1 & ~(1 << b), full & ~1 & ~(1 << c3)]
+        for _ in range(3):
+            rows.append(rng.getrandbits(m) & ~1 & ~(1 << a))
+        yield dict(gen.case(f'WIDEINTENT{m}', rows, m, 'plain'), wideintent=True)
+
+
+def run_wideintent(concepts, case, spec):
+    ctx = common.build_or_skip(concepts, case)
+    if ctx is None:
+        return
+    lat = common.get_lattice(ctx)
+    if lat is RAISED:
+        return
+    members = list(lat)
+    COL.count('wideintent_cases')
+    big = max(members, key=lambda c: (len(c.intent) if c.extent else -1))
+    STATE['prefix_only'] = True
+    try:
+        for take in (1, 40, 420):
+            g = call(big.attributes)
+            if g is RAISED:
+                return
+            for _ in range(take):
+                if next(g, None) is None:
+                    break
+            del g
+        call(big.minimal)
+    finally:
+        STATE['prefix_only'] = False
+
+
 def run_bigintent(concepts, case, spec):
     ctx = common.build_or_skip(concepts, case)
     if ctx is None:
@@ -214,10 +298,11 @@ def run_bigintent(concepts, case, spec):
         STATE['bound'] = None
 
 
-STATE = {'bound': None}
+STATE = {'bound': None, 'prefix_only': False}
 
 
 def cases(tier, seed, spec):
+    yield from wideintent_cases(tier)
     yield from bigintent_cases(tier)
     bound = MAX_INTENT[tier]
     for c in gen.ctx_stream(tier, seed, with_wide=False, max_rnd=(8, 8) if tier == 'quick' else (12, 12)):
@@ -226,6 +311,8 @@ def cases(tier, seed, spec):
 
 
 def run_case(concepts, case, spec):
+    if case.get('wideintent'):
+        return run_wideintent(concepts, case, spec)
     if case.get('bigintent'):
         return run_bigintent(concepts, case, spec)
     rng = common.rng_for(case, spec)
